@@ -535,6 +535,10 @@ func (r *Reader) ReadMessage(codec Codec) (messageInstance any, err error) {
 		return nil, err
 	}
 
+	if messageName == nilMessageName {
+		return nil, nil
+	}
+
 	if messageDesc := QueryMessageDescByName(messageName); !messageDesc.IsOutside() {
 		// 内部消息反序列化
 		internalReader := NewReaderFromPool(messageData)
@@ -545,7 +549,7 @@ func (r *Reader) ReadMessage(codec Codec) (messageInstance any, err error) {
 		}
 	} else {
 		// 外部消息反序列化
-		messageInstance, err = codec.Decode(messageData)
+		messageInstance, err = DecodeOutside(codec, messageData)
 		if err != nil {
 			return
 		}
